@@ -291,6 +291,94 @@ def check_observable_kept(spec):
     return None
 
 
+_REC = {}
+
+
+def rec_op_class():
+    """A harness-local op with RecursiveMemoryEffect (its effects are those of the ops nested in it, at any depth) and no terminator requirement."""
+    if "cls" not in _REC:
+        from xdsl.irdl import IRDLOperation, irdl_op_definition, region_def, traits_def, var_operand_def, var_result_def
+        from xdsl.traits import NoTerminator, RecursiveMemoryEffect
+
+        @irdl_op_definition
+        class C13RecOp(IRDLOperation):
+            name = "test.c13_rec"
+            ins = var_operand_def()
+            outs = var_result_def()
+            body = region_def()
+            traits = traits_def(RecursiveMemoryEffect(), NoTerminator())
+
+        _REC["cls"] = C13RecOp
+    return _REC["cls"]
+
+
+@rechecked
+def check_recursive_effects(shape):
+    """
+    shape = nested tuple: a leaf kind ("pure"/"read"/"write"/"unknown") or ("rec", [children]).  The top-level op has unused results; the oracle says it is
+    removable exactly when NO op nested at ANY depth has an unknown or writing effect.  Both dce entry points must agree, at every depth.
+    """
+    from xdsl.dialects.builtin import ModuleOp, i32
+    from xdsl.ir import Block, Region
+    from xdsl.transforms.dead_code_elimination import dce, is_trivially_dead, region_dce
+
+    def mk_shape(sh):
+        if isinstance(sh, str):
+            return mk(sh, [], 1)
+        kids = [mk_shape(c) for c in sh[1]]
+        return rec_op_class().create(result_types=[i32], regions=[Region([Block(kids)])])
+
+    def harmless(sh):
+        if isinstance(sh, str):
+            return sh in ("pure", "read")
+        return all(harmless(c) for c in sh[1])
+
+    def _t(sh):
+        return sh if isinstance(sh, str) else ("rec", [_t(c) for c in sh[1]])
+
+    shape = _t(shape) if not isinstance(shape, str) else shape
+    exp_removed = harmless(shape)
+    for entry in ("is_trivially_dead", "region_dce", "dce"):
+        top = mk_shape(shape)
+        keep = mk("write", [], 0)
+        module = ModuleOp([top, keep])
+        before = str(module)
+        if entry == "is_trivially_dead":
+            got_removed = is_trivially_dead(top)
+        else:
+            (region_dce(module.body) if entry == "region_dce" else dce(module))
+            got_removed = top.parent is None
+        if got_removed != exp_removed:
+            return {"entry": entry, "program": before, "after": str(module), "why": f"an unused op with recursive effects was {'removed' if got_removed else 'kept'}; "
+                    f"its nested ops {'all have' if exp_removed else 'do NOT all have'} known harmless effects", "key": "C13/recursive-effects"}
+    return None
+
+
+def explore_recursive(tier, seed):
+    leaves = ["pure", "read", "write", "unknown"]
+    shapes = []
+    for a in leaves:
+        shapes.append(("rec", [a]))
+        for b in leaves:
+            shapes.append(("rec", [a, b]))
+            shapes.append(("rec", [("rec", [a]), b]))
+            shapes.append(("rec", [("rec", [a, b])]))
+            shapes.append(("rec", [("rec", [("rec", [a])]), b]))
+            if tier != "quick":
+                for c in leaves:
+                    shapes.append(("rec", [("rec", [("rec", [a, b]), c])]))
+    shapes.append(("rec", []))
+    fails = []
+    for sh in shapes:
+        f = check_recursive_effects(sh)
+        if f:
+            fails.append(f)
+            break
+    return {"cases": len(shapes), "failures": fails, "exhaustive": True,
+            "bound": "ops with RecursiveMemoryEffect nested up to 3 levels over leaf ops with pure / read / write / unknown effects (all combinations of <= 2, thorough: 3 leaves): "
+                     "is_trivially_dead, region_dce and the dce pattern remove the unused outer op exactly when every nested op is harmless"}
+
+
 def explore(tier, seed):
     rnd = random.Random(seed)
     n = 600 if tier == "quick" else 8000
